@@ -587,4 +587,37 @@ def r8_rle_roundtrip(a, tier):
     return rep
 
 
-RULES = [r1_mirror, r2_codecs, r3_reader, r4_exception_sets, r5_file_lifecycle, r6_checksum, r7_queue_invariants, r8_rle_roundtrip]
+def r9_packet_fields(a, tier):
+    from ..minieval import Unsupported
+    from ..modelinterp import Bound, ModelInterp, Stub
+    rep = RuleReport(
+        'C19.R9',
+        'a packet carries the recipient and the data it was built with: Packet.__init__, interpreted for every recipient in {None, "", '
+        '"x"} and every payload in {None, 0, 0.0, False, "", [], {}, "v", [0], {"k": 0}}, leaves `to` and `data` reading back as the '
+        'arguments (a falsy payload is a payload; only None means absent) - the serialised form is built from these attributes',
+        floor=20,
+    )
+    PKT = 'tatsu.packetz.packet.Packet'
+    init = a.ct.lookup(PKT, '__init__')
+    if init is None:
+        raise AnalysisError('C19.R9: Packet.__init__ not found')
+    n_bad = 0
+    for to in (None, '', 'x'):
+        for data in (None, 0, 0.0, False, '', [], {}, 'v', [0], {'k': 0}):
+            me = Stub(PKT, id='ID')
+            it = ModelInterp(a)
+            try:
+                it.call_bound(Bound(me, init), [], {'to': to, 'data': data})
+                got = (it.get_attr(me, 'to'), it.get_attr(me, 'data'))
+            except Unsupported as e:
+                raise AnalysisError(f'C19.R9: cannot interpret Packet.__init__: {e}') from e
+            ok = got[0] == to and type(got[0]) is type(to) and got[1] == data and type(got[1]) is type(data)
+            rep.add({'to': repr(to), 'data': repr(data), 'reads_back': repr(got), 'ok': ok})
+            if not ok and n_bad < 6:
+                n_bad += 1
+                rep.fail(init.qualname, f'packet-fields:{to!r}:{data!r}', f'Packet(to={to!r}, data={data!r}) reads back as to={got[0]!r}, data={got[1]!r}: the receiver is '
+                         f'handed another recipient or payload than the sender gave', init.loc)
+    return rep
+
+
+RULES = [r1_mirror, r2_codecs, r3_reader, r4_exception_sets, r5_file_lifecycle, r6_checksum, r7_queue_invariants, r8_rle_roundtrip, r9_packet_fields]
